@@ -296,6 +296,7 @@ type chanSc struct {
 	Consumer string // none | recv | late
 	Cancel   bool
 	Timer    bool
+	Deadline bool // the caller's context additionally carries a (far) deadline of its own
 }
 
 func chanScenarios() []chanSc {
@@ -324,12 +325,18 @@ func chanScenarios() []chanSc {
 			chanSc{Procs: 2, Cap: cp, Prefill: cp == 1, Consumer: "none", Cancel: true},
 			chanSc{Procs: 2, Cap: cp, Prefill: false, Consumer: "recv", Timer: true})
 	}
+	// every scenario again with a context that has a deadline far beyond the sink's timeout: an explicit
+	// cancel still ends the wait, and the timeout is still the sink's
+	for _, c := range append([]chanSc(nil), out...) {
+		c.Deadline = true
+		out = append(out, c)
+	}
 	for i := range out {
 		c := &out[i]
 		if c.Procs == 0 {
 			c.Procs = 1
 		}
-		c.Name = fmt.Sprintf("ChannelSink cap=%d prefilled=%v consumer=%s cancel-thread=%v timer-thread=%v concurrent-Process-calls=%d", c.Cap, c.Prefill, c.Consumer, c.Cancel, c.Timer, c.Procs)
+		c.Name = fmt.Sprintf("ChannelSink cap=%d prefilled=%v consumer=%s cancel-thread=%v timer-thread=%v concurrent-Process-calls=%d ctx-has-deadline=%v", c.Cap, c.Prefill, c.Consumer, c.Cancel, c.Timer, c.Procs, c.Deadline)
 	}
 	return out
 }
@@ -379,6 +386,10 @@ func chanBody(c chanSc) func() string {
 			vrt.Fail("NewChannelSink: %v", err)
 		}
 		ctx, cancel := context.WithCancel(context.Background())
+		if c.Deadline {
+			// real-clock deadline an hour away: it never fires during an execution
+			ctx, cancel = context.WithDeadline(context.Background(), time.Now().Add(time.Hour))
+		}
 		defer cancel()
 		fl := &flags{}
 		var got [4]*el.Event
